@@ -84,6 +84,17 @@ pub fn gen_sched_script(t: &mut Tape, p: &SchedProfile) -> Script {
     s.reboot_allowed = t.vec_of(8, |t| (t.chance(1, 3), !t.chance(1, 3)));
     s.installs = t.vec_of(3, |t| InstallSpec { results: t.vec_of(2, |t| t.weighted(&[5, 1, 1]) as u8), progress: t.vec_of(8, |t| t.choose(101) as f32 / 100.0), concurrent: match t.weighted(&[4, 2, 1]) { 0 => 0, 1 => 2 + t.choose(2) as u8, _ => IMPATIENT } });
     s.reboots = t.vec_of(2, |t| !t.chance(1, 5));
+    // a server-dictated poll interval in force while waits are armed: on some answers, or restored from storage
+    for h in s.http.iter_mut() {
+        if let HttpSpec::Resp(r) = h {
+            if t.chance(1, 4) {
+                r.retry_after = vec![t.pick(&[&b"600"[..], b"5", b"86400", b"0"]).to_vec()];
+            }
+        }
+    }
+    if t.chance(1, 8) {
+        s.storage_init.push(("server_dictated_poll_interval".into(), SVal::I(*t.pick(&[600_000_000i64, 5_000_000, 86_400_000_000]))));
+    }
     s
 }
 
